@@ -261,6 +261,17 @@ int choose( int me, int kind, int child)
       }
       if (kind == pkEdge)
          return me;
+      if ((kind == pkLock || kind == pkUnlock) && g.cfg.sync_pct > 0)
+      {
+         // synchronisation calls are rare in the code under test and the
+         // places where hand-offs between threads matter most
+         if (rngBelow( 100) < g.cfg.sync_pct)
+         {
+            int  o = randomOther( me);
+            return o >= 0 ? o : me;
+         }
+         return me;
+      }
       if (rngBelow( g.cfg.p) == 0)
       {
          int  o = randomOther( me);
